@@ -3,7 +3,7 @@
     second-moment recurrence of a full step (Model/Moments2.v). *)
 From Coq Require Import List ZArith Lia Bool Ring Field.
 From Inovesa Require Import Base.FieldKit Base.Sums Gen.Gen_FPStencil Model.FokkerPlanck Model.Moments2
-  Proofs.FokkerPlanckP.
+  Proofs.FPGridP Proofs.FokkerPlanckP Proofs.FPMomentsP.
 Import ListNotations.
 Local Open Scope Z_scope.
 
